@@ -1,12 +1,13 @@
 #!/usr/bin/env python3
-"""Runs the registered check of each seeded defect under /verif/seeded/<name>/ against /repo with the
-patch applied, and restores /repo afterwards.  usage: seeded.py [name ...] [--tier quick] [--seeds 0,1]
-Writes /verif/seeded/RESULTS.json (name -> {property, detected, exit codes, seconds})."""
-import json, os, subprocess, sys, time
+"""Runs the registered check of each seeded defect under /verif/seeded/<name>/ against a scratch
+worktree of /repo with the patch applied (neither /repo nor /verif is modified: the harness is
+copied to a scratch directory whose go.mod points at the scratch worktree).
+usage: seeded.py [name ...] [--tier=quick] [--seeds=0,1]
+Writes /verif/seeded/RESULTS.json (name -> {property, detected, runs})."""
+import json, os, shutil, subprocess, sys, time
 V = os.path.dirname(os.path.dirname(os.path.abspath(__file__)))
 names = [a for a in sys.argv[1:] if not a.startswith("--")]
-tier = "quick"
-seeds = ["0"]
+tier, seeds = "quick", ["0"]
 for a in sys.argv[1:]:
     if a.startswith("--tier="): tier = a.split("=")[1]
     if a.startswith("--seeds="): seeds = a.split("=")[1].split(",")
@@ -14,36 +15,37 @@ if not names:
     names = sorted(d for d in os.listdir(os.path.join(V, "seeded")) if os.path.isdir(os.path.join(V, "seeded", d)))
 resf = os.path.join(V, "seeded", "RESULTS.json")
 res = json.load(open(resf)) if os.path.exists(resf) else {}
-def clean():
-    subprocess.run(["git", "-C", "/repo", "checkout", "--", "."], check=True)
-    st = subprocess.run(["git", "-C", "/repo", "status", "--porcelain"], capture_output=True, text=True).stdout
-    if st.strip():
-        print("WARNING: /repo not clean after restore:\n" + st)
-st = subprocess.run(["git", "-C", "/repo", "status", "--porcelain"], capture_output=True, text=True).stdout
-if st.strip():
-    sys.exit("refusing to run: /repo has local changes\n" + st)
 for n in names:
     d = os.path.join(V, "seeded", n)
     meta = json.load(open(os.path.join(d, "meta.json")))
     prop = meta["property"]
-    patch = os.path.join(d, "patch.diff")
-    r = subprocess.run(["git", "-C", "/repo", "apply", patch], capture_output=True, text=True)
-    if r.returncode != 0:
-        print(n, "patch does not apply:", r.stderr); continue
+    wt, vc = "/tmp/seedrepo-" + n, "/tmp/vseed-" + n
+    subprocess.run(["git", "-C", "/repo", "worktree", "remove", "--force", wt], capture_output=True)
+    shutil.rmtree(vc, ignore_errors=True)
+    subprocess.run(["git", "-C", "/repo", "worktree", "add", "-q", wt, "HEAD"], check=True)
     out = {"property": prop, "runs": []}
     try:
+        r = subprocess.run(["git", "-C", wt, "apply", os.path.join(d, "patch.diff")], capture_output=True, text=True)
+        if r.returncode != 0:
+            print(n, "patch does not apply:", r.stderr); out["error"] = "patch does not apply"; continue
+        subprocess.run(["rsync", "-a", "--exclude", ".build", "--exclude", ".git", "--exclude", "replays", "--exclude", "evidence", V + "/", vc + "/"], check=True)
+        env = dict(os.environ, VERIF_REPO=wt)
+        subprocess.run(["./setup.sh", "--nobuild"], cwd=vc, env=env, check=True)
         for s in seeds:
             t0 = time.time()
-            env = dict(os.environ, VERIF_SEED=s)
-            p = subprocess.run([os.path.join(V, "check"), prop, "--tier", tier], cwd=V, env=env, capture_output=True, text=True)
+            env["VERIF_SEED"] = s
+            p = subprocess.run(["./check", prop, "--tier", tier], cwd=vc, env=env, capture_output=True, text=True)
             viol = [l for l in p.stdout.splitlines() if l.startswith("VIOLATION")]
-            fps = sorted(set(l.strip() for l in p.stdout.splitlines() if l.strip().startswith("fingerprint=")))
-            out["runs"].append({"seed": s, "exit": p.returncode, "seconds": round(time.time() - t0), "violations": len(viol), "fingerprints": [f[:160] for f in fps[:4]]})
-            print(n, prop, "seed", s, "exit", p.returncode, "violations", len(viol), "%ds" % (time.time() - t0), flush=True)
+            fps = sorted(set(l.strip().split(" test=")[0] for l in p.stdout.splitlines() if l.strip().startswith("fingerprint=")))
+            out["runs"].append({"seed": s, "exit": p.returncode, "seconds": round(time.time() - t0), "violations": len(viol), "fingerprints": fps[:5]})
+            print(n, prop, "seed", s, "exit", p.returncode, "violations", len(viol), "%ds" % (time.time() - t0), fps[:3], flush=True)
+            if p.returncode == 2:
+                print(p.stdout[-1500:])
             if p.returncode == 1:
                 break
     finally:
-        clean()
+        subprocess.run(["git", "-C", "/repo", "worktree", "remove", "--force", wt], capture_output=True)
+        shutil.rmtree(vc, ignore_errors=True)
     out["detected"] = any(r["exit"] == 1 for r in out["runs"])
     res[n] = out
     json.dump(res, open(resf, "w"), indent=1)
